@@ -636,7 +636,7 @@ type SchedScenario struct {
 }
 
 func genSchedScenario(t *rapid.T) SchedScenario {
-	c := SchedScenario{EPN: rapid.SampledFrom([]int{2, 4096}).Draw(t, "epn"), Cap: 4000}
+	c := SchedScenario{EPN: rapid.SampledFrom([]int{2, 4096}).Draw(t, "epn"), Cap: 2500}
 	ops := []string{"ins", "ins", "del", "refresh", "roopen"}
 	for ci := 0; ci < 2; ci++ {
 		var script []SchedOp
@@ -698,7 +698,7 @@ func runSchedExhaustive(c SchedScenario, o *Obs) error {
 func init() { register("TestC03_Exhaustive", runSchedExhaustive) }
 
 func TestC03_Exhaustive(t *testing.T) {
-	st := newStats(t, "C03", "TestC03_Exhaustive", "generated small scenarios (2 clients: a writer with 1-2 operations starting with an INSERT, and a second client with 1-2 operations out of INSERT/DELETE/refresh/read-only open; entries_per_node 2 or 4096); for each scenario EVERY interleaving of the version-level requests (LIST and GET/PUT/DELETE under root/) is executed, depth-first with re-execution (the run reports how many clients were blocked at each decision; the enumerator advances the last decision that has an untried alternative), each under the history oracle of TestC03_Sched; a scenario is exhausted when no decision has an untried alternative (cap 4000 interleavings, capped scenarios are counted); non-trivial = an exhausted scenario")
+	st := newStats(t, "C03", "TestC03_Exhaustive", "generated small scenarios (2 clients: a writer with 1-2 operations starting with an INSERT, and a second client with 1-2 operations out of INSERT/DELETE/refresh/read-only open; entries_per_node 2 or 4096); for each scenario EVERY interleaving of the version-level requests (LIST and GET/PUT/DELETE under root/) is executed, depth-first with re-execution (the run reports how many clients were blocked at each decision; the enumerator advances the last decision that has an untried alternative), each under the history oracle of TestC03_Sched; a scenario is exhausted when no decision has an untried alternative (cap 2500 interleavings, capped scenarios are counted); non-trivial = an exhausted scenario")
 	st.Assume = append(st.Assume, "node-object requests pass without yielding (as in TestC03_Sched)")
 	checkRapid(t, st, genSchedScenario, runSchedExhaustive)
 }
